@@ -3,8 +3,8 @@
 namespace mm {
 bool build_group_s3(const Spec& s, XVisitor& v) {
   S_GROUP_HEAD
-  S_PA("lo", LowerEngine<ROW_MAJOR>, 1) S_P("loc", LowerEngine<COL_MAJOR>, 0)
-  S_PA("up", UpperEngine<ROW_MAJOR>, 0) S_P("upc", UpperEngine<COL_MAJOR>, 0)
+  S_PA("lo", LowerEngine<ROW_MAJOR>, 1, 1) S_PA("loc", LowerEngine<COL_MAJOR>, 0, 0)
+  S_PA("up", UpperEngine<ROW_MAJOR>, 0, 0) S_PA("upc", UpperEngine<COL_MAJOR>, 0, 0)
   return false;
 }
 }
